@@ -14,6 +14,7 @@ int main(int argc, char **argv) {
   Args A = parse_args(argc, argv);
   Result R(A);
   std::string what = A.get("what", "all");
+  hg::start(5000);
   R.rule = "one evaluation = one call of a table function / one checked table entry or cell of the real "
            "DensitySubGridCreator / one packet traced through one layout by the hand-over loop; all "
            "enumerated inputs are distinct by construction; non-trivial = table entries and wiring facts "
